@@ -1,7 +1,9 @@
 import NurbsVerif.Driver.Basic
 import NurbsVerif.Driver.Shape
+import NurbsVerif.Driver.Degree
+import NurbsVerif.Driver.Linalg
 namespace Drv
-def handlers : List (List String → Option String) := [handleBasic, handleShape]
+def handlers : List (List String → Option String) := [handleBasic, handleShape, handleDegree, handleLinalg]
 def step (line : String) : String :=
   let toks := (line.trimAscii.toString.splitOn " ").filter (· ≠ "")
   match handlers.findSome? (fun h => h toks) with
